@@ -448,6 +448,10 @@ class CT:
             from .interp import pydiv
 
             return CT.ew(lambda x, y: (x // y) if not (is_z3(x) or is_z3(y)) else pydiv(to_z3(x), to_z3(y)), a, b, dtype="long")
+        if isinstance(op, ast.Mod):
+            from .interp import pymod
+
+            return CT.ew(lambda x, y: (x % y) if not (is_z3(x) or is_z3(y)) else (to_z3(x) % to_z3(y) if (not is_z3(y) and y > 0) else pymod(to_z3(x), to_z3(y))), a, b, dtype=dt)
         if isinstance(op, ast.BitAnd):
             return CT.ew(sc_and, a, b, dtype="bool")
         if isinstance(op, ast.BitOr):
@@ -1471,3 +1475,74 @@ def f_pow(I, base, exp):
 FUNCS["torch.pow"] = f_pow
 METHODS["pow"] = f_pow
 _c("pow with concrete non-negative integer exponents = repeated product")
+
+
+def m_topk(I, t, k, dim=-1, largest=True, sorted=True):
+    """topk contract: k values in non-increasing order with pairwise distinct in-range indices, value = element at the
+    index, and every element not selected is <= the smallest selected value. No tie rule."""
+    if not largest:
+        raise Unsupported("topk(largest=False)")
+    d = _dim(t, dim)
+    if is_z3(k):
+        k = z3.simplify(k).as_long()
+    n = t.shape[d]
+    if k > n:
+        raise PyRaise("RuntimeError", "selected index k out of range")
+    moved = np.moveaxis(t.a, d, -1)
+    vals = np.empty(moved.shape[:-1] + (k,), dtype=object)
+    idxs = np.empty(moved.shape[:-1] + (k,), dtype=object)
+    for pos in np.ndindex(*moved.shape[:-1]):
+        row = [moved[pos + (j,)] for j in range(n)]
+        ks = [I.ex.fresh("int", "topk_idx") for _ in range(k)]
+        vs = [I.ex.fresh("real", "topk_val") for _ in range(k)]
+        cons = []
+        for a in range(k):
+            cons.append(z3.And(ks[a] >= 0, ks[a] < n))
+            pick = False
+            for j in range(n):
+                x = row[j]
+                eq = sc_cmp_g("eq", vs[a], x) if not is_inf(x) else False
+                pick = sc_or(pick, sc_and(ks[a] == j, eq))
+            cons.append(pick if not isinstance(pick, bool) else z3.BoolVal(pick))
+            for b in range(a + 1, k):
+                cons.append(ks[a] != ks[b])
+                cons.append(vs[a] >= vs[b])
+        for j in range(n):  # optimality: an element that was not selected does not exceed the last selected value
+            if k:
+                notsel = z3.And([ks[a] != j for a in range(k)])
+                le = sc_cmp_g("le", row[j], vs[k - 1])
+                cons.append(z3.Implies(notsel, le if not isinstance(le, bool) else z3.BoolVal(le)))
+        I.ex.assume(z3.And(cons) if cons else z3.BoolVal(True))
+        for a in range(k):
+            vals[pos + (a,)] = vs[a]
+            idxs[pos + (a,)] = ks[a]
+    return MinMaxResult(CT(np.moveaxis(vals, -1, d), "float"), CT(np.moveaxis(idxs, -1, d), "long"))
+
+
+METHODS["topk"] = FUNCS["torch.topk"] = m_topk
+_c("topk: sorted values, distinct in-range indices, value = element at index, unselected <= last selected; -inf elements are never reported with a finite value")
+
+
+def m_scatter(I, t, dim, index, src):
+    """out = t.clone(); out[index[pos]] along dim := src[pos] (indices assumed distinct along dim per position, as torch requires for determinism)"""
+    d = _dim(t, dim)
+    out = t.a.copy()
+    srcv = CT.wrap(src)
+    for pos in np.ndindex(*index.shape):
+        k = index.a[pos]
+        k = z3.simplify(k) if is_z3(k) else k
+        v = srcv.a[pos] if srcv.a.shape else srcv.a[()]
+        n = t.shape[d]
+        if is_z3(k) and z3.is_int_value(k):
+            k = k.as_long()
+        if not is_z3(k):
+            out[pos[:d] + (int(k),) + pos[d + 1:]] = v
+            continue
+        I.ex.oblige("scatter.index_in_bounds", z3.And(k >= 0, k < n))
+        for j in range(n):
+            q = pos[:d] + (j,) + pos[d + 1:]
+            out[q] = sc_where(k == j, v, out[q])
+    return CT(out, t.dtype)
+
+
+METHODS["scatter"] = FUNCS["torch.scatter"] = m_scatter
